@@ -594,14 +594,16 @@ func runKvConcCase(ctx *Ctx, kind string, progs [][]*kvOp, forceRace bool) {
 
 func genKvProgs(ctx *Ctx, threads, perThread int, withMany bool) [][]*kvOp {
 	r := ctx.Rnd
-	keys := []string{"a", "b"}
+	// key names: plain ones, and names which a backend might be tempted to normalise (leading / doubled slashes,
+	// a glob character): never two names that differ ONLY in leading slashes (known finding KF-2 of C03)
+	keys := [][]string{{"a", "b"}, {"a", "b"}, {"a", "b"}, {"/cfg/a", "b"}, {"a/b", "a//b"}, {"//x", "*"}}[r.Intn(6)]
 	var progs [][]*kvOp
 	for t := 0; t < threads; t++ {
 		var p []*kvOp
 		for i := 0; i < perThread; i++ {
 			k := keys[r.Intn(2)]
 			if r.Chance(3, 4) {
-				k = "a"
+				k = keys[0]
 			}
 			o := &kvOp{thread: t, key: k, val: fmt.Sprintf("t%d%d", t, i)}
 			switch x := r.Intn(100); {
@@ -611,16 +613,16 @@ func genKvProgs(ctx *Ctx, threads, perThread int, withMany bool) [][]*kvOp {
 				o.kind = "get"
 			case x < 55:
 				o.kind = "put"
-			case x < 80:
+			case x < 78:
 				o.kind = "cas"
-			case x < 90:
+			case x < 88:
 				o.kind = "delete"
-			case x < 95 || !withMany:
+			case x < 92 || !withMany:
 				o.kind = "get"
-			case x < 98:
-				o.kind, o.keys, o.key = "getmany", []string{"a", "b", "a"}, ""
+			case x < 97:
+				o.kind, o.keys, o.key = "getmany", []string{keys[0], keys[1], keys[0]}, ""
 			default:
-				o.kind, o.keys, o.key = "putmany", []string{"a", "b"}, ""
+				o.kind, o.keys, o.key = "putmany", []string{keys[0], keys[1]}, ""
 			}
 			p = append(p, o)
 		}
